@@ -56,6 +56,7 @@ CONFIGURED = {"temperature": 0.37, "max_tokens": 111, "model_kwargs": {"top_p": 
 LOWEST_T = 0.001
 MODES = ("general", "dialog", "single_call", "passthrough", "multi_step")
 LLM_CALLS_PER_TURN = {"general": 1, "dialog": 3, "single_call": 1, "passthrough": 1, "v2": 2, "multi_step": 3}
+EMB_CALLS_PER_TURN = {"dialog": 4, "multi_step": 4, "single_call": 5}  # measured: embedding-model calls of one turn
 PARAM_POOL = [
     None,
     {"temperature": 0.9},
@@ -335,12 +336,19 @@ def conc_cases(tier, seed):
         ("dialog", 3, 1, 0, 0),
         ("dialog", 2, 2, 0, 0),
         ("multi_step", 2, 1, 0, 0),
+        # the embedding model is a suspension point too (user-message / flows / bot-messages index searches): gated like the LLM
+        ("dialog", 2, 1, 0, 0, "emb"),
+        ("dialog", 2, 2, 0, 0, "emb"),
+        ("dialog", 2, 1, 0, 0, "emb-sametext"),
+        ("dialog", 3, 1, 0, 0, "emb-sametext"),
         ("general", 2, 1, 1, 1),
         ("general", 3, 2, 1, 0),
         ("v2", 2, 1, 0, 0),
     ]
     for rnd in range(rounds):
-        for mode, n, turns, k, m in shapes:
+        for shape in shapes:
+            mode, n, turns, k, m = shape[:5]
+            emb = shape[5] if len(shape) > 5 else None
             if mode == "v2" and rnd % 2:
                 continue  # 2.x instances are an order of magnitude more expensive to build
             gi += 1
@@ -350,7 +358,11 @@ def conc_cases(tier, seed):
             if rnd % 2 == 0 and None not in pool[:n]:
                 pool[rng.randrange(n)] = None  # a conversation without options sees the others' parameters best
             convs = [conv([[U("%s%d asks w%d %s" % ("uvw"[i], t, rng.randint(0, 99), g))] for t in range(turns)], pool[i]) for i in range(n)]
-            per_turn = k + LLM_CALLS_PER_TURN[mode] + m
+            if emb == "emb-sametext":
+                # the conversations open with the very same user text (their later turns differ)
+                for cv in convs[1:]:
+                    cv["turns"][0] = [U(convs[0]["turns"][0][0]["content"])]
+            per_turn = k + LLM_CALLS_PER_TURN[mode] + m + (EMB_CALLS_PER_TURN.get(mode, 0) if emb else 0)
             counts = [turns * per_turn] * n
             starts = list(itertools.permutations(range(n)))
             total_calls = sum(counts)
@@ -375,7 +387,7 @@ def conc_cases(tier, seed):
             for s, r in scheds:
                 yield {
                     "wl": "conc", "fam": "conc", "mode": mode, "k": k, "m": m, "convs": convs, "answers": {}, "default": rng.choice(["hash", "const"]),
-                    "start": s, "release": r, "tag": g, "all_orders": exhaustive, "gate_rails": True,
+                    "start": s, "release": r, "tag": g, "all_orders": exhaustive, "gate_rails": True, "gate_emb": bool(emb),
                 }
 
 
@@ -429,6 +441,25 @@ def setup_worker():
         def _call(self, prompt, stop=None, run_manager=None, **kw):
             raise RuntimeError("sync LLM path is not part of this workload")
 
+    # the offline embedding model becomes a gated suspension point when a case asks for it
+    H = L["HashEmbedding"]
+    if not getattr(H, "_vp_c15_gated", False):
+        async def encode_async(self, documents):
+            import asyncio
+
+            g = _W.get("emb_gate")
+            if g is not None:
+                who = cur.get()
+                lg = _W.get("emb_log")
+                if lg is not None:
+                    lg.add("emb", conv=who, texts=list(documents))
+                fut = asyncio.get_running_loop().create_future()
+                g.park(who, "emb", fut)
+                await fut
+            return self.encode(documents)
+
+        H.encode_async = encode_async
+        H._vp_c15_gated = True
     # observation hook for the classifier only: order of LLMParams enter / exit on the logical clock
     hooked = False
     try:
@@ -685,6 +716,8 @@ async def run_conc(inst, case):
     inst.gate = gate
     inst.llm.gate = gate
     inst.gate_rails = bool(case.get("gate_rails"))
+    _W["emb_gate"] = gate if case.get("gate_emb") else None
+    _W["emb_log"] = inst.log if case.get("gate_emb") else None
     loop = asyncio.get_running_loop()
     results = {}
 
@@ -753,6 +786,8 @@ async def run_conc(inst, case):
                 t.cancel()
         inst.gate = None
         inst.llm.gate = None
+        _W["emb_gate"] = None
+        _W["emb_log"] = None
     out = []
     for who in range(len(convs)):
         recs = results.get(who, [])
